@@ -32,10 +32,6 @@ Lemma current_exported_closed :
   exported_closed listed_types types_seen exported_methods functions = true.
 Proof. vm_compute. reflexivity. Qed.
 
-(* the exemptions are needed: with them put back the discipline fails *)
-Lemma current_unexempted_fails : discipline_ok accesses kafka = false.
-Proof. vm_compute. reflexivity. Qed.
-
 (* consequence for traces: combined with the generic soundness theorem *)
 Lemma current_no_race : forall field_of lock_inst tr,
   wf_locks tr -> conforms checked_facts field_of lock_inst tr ->
@@ -49,6 +45,13 @@ Proof.
     apply andb_prop in Hcur. destruct Hcur as [Hcur _]. exact Hcur. }
   exact (discipline_sound checked_facts kafka field_of lock_inst tr H Hwf Hc x Hx).
 Qed.
+
+Lemma current_policy_rejects_unlocked :
+  discipline_ok (mkAcc "Batch" "err" KRead "Batch.Err" [] false "batch.go:128" :: nil) kafka = false /\
+  discipline_ok (mkAcc "Conn" "offset" KRead "Batch.ReadMessage" [("Batch.mutex", MW)] false "batch.go:212" :: nil) kafka = false /\
+  discipline_ok (mkAcc "Reader" "version" KRead "Reader.start$1" [] false "reader.go:1211" :: nil) kafka = false /\
+  discipline_ok (mkAcc "Batch" "err" KRead "Batch.Err" [("Batch.mutex", MW)] false "batch.go:128" :: nil) kafka = true.
+Proof. vm_compute. repeat split; reflexivity. Qed.
 
 (* a synthetic non-vacuity check of discipline_ok: dropping the lock from one site, an
    unlisted field, and an address escaping are each rejected *)
